@@ -128,7 +128,7 @@ def make_wrapper(nt, st, S, R):
     return w
 
 
-def solve(cfg, seed, no_grad=False):
+def solve(cfg, seed, no_grad=False, default_bm=False):
     """Run the real sdeint for one configuration; returns dict(phase, ys | exc/msg, used).
     no_grad: run under torch.no_grad() (as the forward pass of sdeint_adjoint does): the solution must not depend on
     whether autograd is recording - the operators the library derives with autograd re-enable it locally."""
@@ -142,6 +142,13 @@ def solve(cfg, seed, no_grad=False):
     bm = torchsde.BrownianInterval(t0=TS[0], t1=TS[-1], size=(BATCH, M_FOR[nt]), dtype=torch.float64,
                                    levy_area_approximation="foster", entropy=int(seed) + 1601)
     kw = dict(bm=bm, method=cfg["solver"], dt=DT)
+    if default_bm:
+        # bm=None: sdeint builds its own Brownian motion; with the global generators seeded identically before the call
+        # (numpy dictates its entropy) the solution is reproducible - and must not depend on the interface variant
+        import numpy as np
+        kw.pop("bm")
+        np.random.seed(int(seed) % (2 ** 31))
+        torch.manual_seed(int(seed) % (2 ** 31))
     if names:
         kw["names"] = names
     if cfg["gf"]:
@@ -173,11 +180,14 @@ def _work(chunk):
     res = []
     refs = {}
     for idx, cfg, seed in chunk:
-        rk = (cfg["solver"], cfg["gf"], cfg["st"], cfg["nt"])
+        # every fifth configuration whose diffusion is visible as g / f_and_g under its own name (the noise size can then
+        # be inferred) runs with the DEFAULT Brownian motion (bm=None) under identically seeded global generators
+        dbm = idx % 5 == 2 and ("g" in cfg["S"] or "f_and_g" in cfg["S"]) and not cfg["R"] and not cfg["N"]
+        rk = (cfg["solver"], cfg["gf"], cfg["st"], cfg["nt"], dbm)
         if rk not in refs:
-            refs[rk] = solve(dict(cfg, S=["f", "g"], R=[], N=[]), seed)
+            refs[rk] = solve(dict(cfg, S=["f", "g"], R=[], N=[]), seed, default_bm=dbm)
         ref = refs[rk]
-        o = solve(cfg, seed, no_grad=(idx % 2 == 1))      # the reference runs with autograd recording
+        o = solve(cfg, seed, no_grad=(idx % 2 == 1), default_bm=dbm)      # the reference runs with autograd recording
         equal = None
         maxdiff = None
         if o["phase"] == "solved" and ref["phase"] == "solved":
